@@ -18,8 +18,11 @@ of the unrestricted statement on that witness); with the repaired printer the th
 raw public key hashes too (`rawpkh_*` below are now instances of T5).
 -/
 import MsVerif.Lemmas.DisplayPlain
+import MsVerif.Lemmas.DisplayString
+import MsVerif.Lemmas.DescString
 import MsVerif.Spec.Bip388
 import MsVerif.Spec.KeyGrammar
+import MsVerif.Model.Validate
 
 namespace MsVerif.C10b
 open MsVerif MsVerif.Display
@@ -49,12 +52,40 @@ theorem fromTree_toTree_codec (c : Codec) (hc : CodecOk c) (m : Ms)
   simp only [nodeOk, Bool.and_eq_true] at hx ⊢
   exact ⟨hx, atomsOk_of_codecOk c hc x⟩
 
-/-- formatting is a fixed point after one round trip -/
-theorem display_fixed_point (c : Codec) (m m' : Ms) (h : Ms.all (nodeOk c) m = true)
-    (hp : fromTree c (toTree c m) = .ok m') : display c m' = display c m := by
-  rw [fromTree_toTree c m h] at hp
-  injection hp with e
-  rw [e]
+/-- the hypothesis at the root -/
+theorem all_root (p : Ms → Bool) (m : Ms) (h : Ms.all p m = true) : p m = true := by
+  cases m <;> simp only [Ms.all, Bool.and_eq_true] at h <;>
+    first | exact h | exact h.1 | exact h.1.1 | exact h.1.1.1
+
+/-- **T5 on CHARACTERS**: `Miniscript::from_str` (expression parser of Model/Expr.lean: checksum
+scan, pre-check, node-table builder — then `FromTree`) applied to the characters `Display` writes
+gives back the same AST.  Uses `Expr.fromStr_print` (the node table built for a printed tree is the
+table of that tree), the well-formedness of the printed tree (`toTreeW_wf`: names free of
+`(){},#`) and its nesting bound `height + 1 ≤ 403` (`toTreeW_depth`). -/
+theorem fromStr_display (c : Codec) (hn : CodecNames c) (m : Ms) (h : Ms.all (nodeOk c) m = true) :
+    fromStr c (display c m) = .ok m := by
+  have hwf : (toTree c m).WF := toTreeW_wf c hn m [] nil_pre
+  have hh : height m ≤ MAX_RECURSION_DEPTH := ((nodeOk_iff c m).1 (all_root _ m h)).2.1
+  have hd : (toTree c m).depth ≤ 403 := by
+    have := toTreeW_depth c m []
+    unfold toTree
+    simp only [MAX_RECURSION_DEPTH] at hh
+    omega
+  obtain ⟨nodes, hok, hdec⟩ := Expr.fromStr_print (toTree c m) hwf hd
+  unfold fromStr display
+  rw [hok]
+  simp only [hdec]
+  exact fromTree_toTree c m h
+
+/-- **formatting is a fixed point after one round trip**, on characters:
+`print (parse (print m)) = print m` -/
+theorem display_fixed_point (c : Codec) (hn : CodecNames c) (m : Ms) (h : Ms.all (nodeOk c) m = true) :
+    (fromStr c (display c m)).map (display c) = .ok (display c m) := by
+  rw [fromStr_display c hn m h]; rfl
+
+/-- the decimal codec prints atoms inside the character set -/
+theorem decCodec_names (gv : Ms → Bool) : CodecNames (decCodec gv) :=
+  ⟨fun k => showNat_nameOk k, fun _ h => showNat_nameOk h, fun h => showNat_nameOk h⟩
 
 /-- the unsugared spelling (`c:pk_k(K)`, `and_v(X,1)`, `or_i(0,X)`, `or_i(X,0)`, `andor(X,Y,0)`)
 parses to the AST it spells -/
@@ -131,11 +162,176 @@ theorem sample_ok : Ms.all (nodeOk idCodec) sample = true := by
 example : fromTree idCodec (toTree idCodec sample) = .ok sample :=
   fromTree_toTree idCodec sample sample_ok
 
+example : fromStr idCodec (display idCodec sample) = .ok sample :=
+  fromStr_display idCodec (decCodec_names _) sample sample_ok
+
 example : fromTree idCodec (plainTree idCodec sample) = fromTree idCodec (toTree idCodec sample) :=
   sugar_never_changes_meaning idCodec sample sample_ok
 
 example : fromTree idCodec (toTree idCodec (.check (.rawPkH 0))) = .ok (.check (.rawPkH 0)) :=
   rawpkh_check_roundtrip idCodec 0 rawpkh_admissible
+
+/-! ## non-vacuity in REAL contexts: `gv` is the model of `Ctx::check_global_validity` of
+Model/Validate.lean (fragment availability, key kinds, script-size limits), not "accept all" -/
+
+/-- keys of `n` bytes (33: compressed, 32: x-only) -/
+def envOf (n : Nat) : KeyEnv where
+  ser _ := List.replicate n 0
+  sortKey _ := List.replicate n 0
+  pkh _ := List.replicate 20 0
+  rawPkh _ := List.replicate 20 0
+  hashVal kind _ := match kind with
+    | .sha256 | .hash256 => List.replicate 32 0
+    | _ => List.replicate 20 0
+
+/-- the codec of a real context: decimal atoms, `check_global_validity` of `ctx` with every key of
+kind `kind` -/
+def ctxCodec (ctx : Ctx) (kind : KeyKind) (keyLen : Nat) : Codec :=
+  decCodec (fun m => checkGlobalValidity ctx ⟨fun _ => kind, fun _ => 1⟩ (extOf (envOf keyLen) ctx m).pkCost m)
+
+/-- Segwitv0 with compressed keys: `tv:or_i(pk(1),and_n(pkh(2),l:older(144)))` and a 2-of-3 `multi` -/
+def sampleSegwit : Ms := .andB sample (.alt (.multi 2 [1, 2, 3]))
+
+theorem sampleSegwit_ok : Ms.all (nodeOk (ctxCodec .segwitv0 .compressed 33)) sampleSegwit = true := by
+  have h1 : readDec (showNat 1) = some 1 := readDec_showNat 1 (by omega)
+  have h2 : readDec (showNat 2) = some 2 := readDec_showNat 2 (by omega)
+  have h3 : readDec (showNat 3) = some 3 := readDec_showNat 3 (by omega)
+  simp only [sampleSegwit, sample, Ms.all, nodeOk, localOk, atomsOk, ctxCodec, decCodec, h1, h2, h3,
+    List.all_cons, List.all_nil, beq_self_eq_true, Bool.and_true, Bool.true_and]
+  decide +kernel
+
+example : fromTree (ctxCodec .segwitv0 .compressed 33) (toTree (ctxCodec .segwitv0 .compressed 33) sampleSegwit)
+    = .ok sampleSegwit := fromTree_toTree _ _ sampleSegwit_ok
+
+/-- in Segwitv0 an x-only key is refused by `check_pk`: the hypothesis is not "anything goes" -/
+theorem sampleSegwit_xonly_refused :
+    Ms.all (nodeOk (ctxCodec .segwitv0 .xonly 32)) sampleSegwit = false := by
+  have h1 : readDec (showNat 1) = some 1 := readDec_showNat 1 (by omega)
+  have h2 : readDec (showNat 2) = some 2 := readDec_showNat 2 (by omega)
+  have h3 : readDec (showNat 3) = some 3 := readDec_showNat 3 (by omega)
+  simp only [sampleSegwit, sample, Ms.all, nodeOk, localOk, atomsOk, ctxCodec, decCodec, h1, h2, h3,
+    List.all_cons, List.all_nil, beq_self_eq_true, Bool.and_true, Bool.true_and]
+  decide +kernel
+
+/-- Tap with x-only keys: `and_v(v:multi_a(2,1,2,3),or_d(pk(4),and_v(v:pkh(5),older(10))))` -/
+def sampleTap : Ms :=
+  .andV (.verify (.multiA 2 [1, 2, 3]))
+    (.orD (.check (.pkK 4)) (.andV (.verify (.check (.pkH 5))) (.older 10)))
+
+theorem sampleTap_ok : Ms.all (nodeOk (ctxCodec .tap .xonly 32)) sampleTap = true := by
+  have h1 : readDec (showNat 1) = some 1 := readDec_showNat 1 (by omega)
+  have h2 : readDec (showNat 2) = some 2 := readDec_showNat 2 (by omega)
+  have h3 : readDec (showNat 3) = some 3 := readDec_showNat 3 (by omega)
+  have h4 : readDec (showNat 4) = some 4 := readDec_showNat 4 (by omega)
+  have h5 : readDec (showNat 5) = some 5 := readDec_showNat 5 (by omega)
+  simp only [sampleTap, Ms.all, nodeOk, localOk, atomsOk, ctxCodec, decCodec, h1, h2, h3, h4, h5,
+    List.all_cons, List.all_nil, beq_self_eq_true, Bool.and_true, Bool.true_and]
+  decide +kernel
+
+example : fromTree (ctxCodec .tap .xonly 32) (toTree (ctxCodec .tap .xonly 32) sampleTap) = .ok sampleTap :=
+  fromTree_toTree _ _ sampleTap_ok
+
+example : (fromStr (ctxCodec .tap .xonly 32) (display (ctxCodec .tap .xonly 32) sampleTap)).map
+    (display (ctxCodec .tap .xonly 32)) = .ok (display (ctxCodec .tap .xonly 32) sampleTap) :=
+  display_fixed_point _ (decCodec_names _) _ sampleTap_ok
+
+/-- `multi_a` does not exist in Segwitv0: the same object is not admissible there -/
+theorem sampleTap_not_segwit : Ms.all (nodeOk (ctxCodec .segwitv0 .compressed 33)) sampleTap = false := by
+  have h1 : readDec (showNat 1) = some 1 := readDec_showNat 1 (by omega)
+  have h2 : readDec (showNat 2) = some 2 := readDec_showNat 2 (by omega)
+  have h3 : readDec (showNat 3) = some 3 := readDec_showNat 3 (by omega)
+  have h4 : readDec (showNat 4) = some 4 := readDec_showNat 4 (by omega)
+  have h5 : readDec (showNat 5) = some 5 := readDec_showNat 5 (by omega)
+  simp only [sampleTap, Ms.all, nodeOk, localOk, atomsOk, ctxCodec, decCodec, h1, h2, h3, h4, h5,
+    List.all_cons, List.all_nil, beq_self_eq_true, Bool.and_true, Bool.true_and]
+  decide +kernel
+
+/-! ## the descriptor wrappers (Model/DescDisplay.lean) -/
+
+open DescDisplay in
+/-- **descriptor wrappers, tree level**: `pkh`, `wpkh`, `sh(wpkh)`, `sh(wsh(M))`, `sh(M)`, `wsh(M)`, a
+bare `M`, `tr(K)` and `tr(K,TREE)` with a tap tree of any shape (inner nodes at depth < 128):
+`FromTree for Descriptor` applied to the printed tree gives back the same descriptor.
+`DescOk`: the inner miniscripts are admissible (`nodeOk`), the wrapper constructor accepts
+(`wrapOk`/`leafOk`), keys read back — and a bare miniscript is not `c:pk_h(K)` (F15 below). -/
+theorem desc_fromTree_toTree (c : DCodec) (d : Desc) (h : DescOk c d) :
+    DescDisplay.fromTree c (DescDisplay.toTree c d) = .ok d :=
+  DescDisplay.fromTree_toTree c d h
+
+open DescDisplay in
+/-- **descriptor wrappers, on characters** (no checksum): holds while the printed nesting is within
+the expression parser's limit (403); beyond it the library refuses its own output (finding F14b) -/
+theorem desc_fromStr_display (c : DCodec) (hn : DNames c) (d : Desc) (h : DescOk c d)
+    (hd : (DescDisplay.toTree c d).depth ≤ 403) :
+    DescDisplay.fromStr c (DescDisplay.display c d) = .ok d :=
+  DescDisplay.fromStr_display c hn d h hd
+
+open DescDisplay in
+/-- F15 in the model: the bare descriptor `c:pk_h(K)` prints as `pkh(K)` and reads back as the
+`pkh()` descriptor, a different object -/
+theorem desc_bare_pkh_differs (c : DCodec) (k : Key)
+    (hk : (c.ms .bare).showKey k = c.showKey k) (hr : c.readKey (c.showKey k) = some k)
+    (hw : c.wrapOk (.pkh k) = true) :
+    DescDisplay.fromTree c (DescDisplay.toTree c (.bare (.check (.pkH k)))) = .ok (.pkh k)
+      ∧ Desc.pkh k ≠ Desc.bare (.check (.pkH k)) :=
+  ⟨bare_pkh_reads_as_pkh c k hk hr hw, by intro e; cases e⟩
+
+/-- a descriptor codec with REAL wrapper checks: the C12 model of `top_level_checks` + the wrapper's
+`validate` (Model/Validate.lean), compressed keys outside taproot and x-only keys inside -/
+def realDCodec : DescDisplay.DCodec where
+  ms ctx := match ctx with
+    | .tap => ctxCodec .tap .xonly 32
+    | ctx => ctxCodec ctx .compressed 33
+  showKey := showNat
+  readKey := readDec
+  wrapOk d := match d with
+    | .wsh m => topLevelChecks ⟨fun _ => .compressed, fun _ => 1⟩ .segwitv0 m
+        && wrapperValidate (envOf 33) ⟨fun _ => .compressed, fun _ => 1⟩ .segwitv0 m
+    | .sh m => topLevelChecks ⟨fun _ => .compressed, fun _ => 1⟩ .legacy m
+        && wrapperValidate (envOf 33) ⟨fun _ => .compressed, fun _ => 1⟩ .legacy m
+    | .bare m => topLevelChecks ⟨fun _ => .compressed, fun _ => 1⟩ .bare m
+    | _ => true
+  leafOk m := isOk (validate (envOf 32) ⟨fun _ => .xonly, fun _ => 1⟩ .tap (Ctx.CONSENSUS .tap) m)
+
+theorem realDCodec_names : DescDisplay.DNames realDCodec :=
+  ⟨fun ctx => by cases ctx <;> exact decCodec_names _, fun k => showNat_nameOk k⟩
+
+/-- `sh(wsh(and_b(tv:or_i(pk(1),and_n(pkh(2),l:older(144))),a:multi(2,1,2,3))))` -/
+theorem sampleDesc_ok : DescDisplay.DescOk realDCodec (.shWsh sampleSegwit) := by
+  refine ⟨sampleSegwit_ok, ?_⟩
+  decide +kernel
+
+example : DescDisplay.fromTree realDCodec (DescDisplay.toTree realDCodec (.shWsh sampleSegwit))
+    = .ok (.shWsh sampleSegwit) := desc_fromTree_toTree _ _ sampleDesc_ok
+
+example : DescDisplay.fromStr realDCodec (DescDisplay.display realDCodec (.shWsh sampleSegwit))
+    = .ok (.shWsh sampleSegwit) :=
+  desc_fromStr_display _ realDCodec_names _ sampleDesc_ok (by
+    have := toTreeW_depth (realDCodec.ms .segwitv0) sampleSegwit []
+    simp only [DescDisplay.toTree, Expr.Tree.depth, Expr.Tree.depthList, Display.toTree]
+    have hh : height sampleSegwit ≤ 10 := by decide
+    omega)
+
+/-- `tr(7,{and_v(v:multi_a(2,1,2,3),…),{pk(4),pk(5)}})` -/
+def sampleTr : DescDisplay.Desc :=
+  .tr 7 (some (.node (.leaf sampleTap) (.node (.leaf (.check (.pkK 4))) (.leaf (.check (.pkK 5))))))
+
+theorem sampleTr_ok : DescDisplay.DescOk realDCodec sampleTr := by
+  have h4 : readDec (showNat 4) = some 4 := readDec_showNat 4 (by omega)
+  have h5 : readDec (showNat 5) = some 5 := readDec_showNat 5 (by omega)
+  have h7 : readDec (showNat 7) = some 7 := readDec_showNat 7 (by omega)
+  have hk : ∀ k : Nat, k ≤ 9 → Ms.all (nodeOk (ctxCodec .tap .xonly 32)) (.check (.pkK k)) = true := by
+    intro k hk9
+    have hr : readDec (showNat k) = some k := readDec_showNat k (by omega)
+    simp only [Ms.all, nodeOk, localOk, atomsOk, ctxCodec, decCodec, hr, beq_self_eq_true, Bool.and_true]
+    have : k = 0 ∨ k = 1 ∨ k = 2 ∨ k = 3 ∨ k = 4 ∨ k = 5 ∨ k = 6 ∨ k = 7 ∨ k = 8 ∨ k = 9 := by omega
+    rcases this with rfl | rfl | rfl | rfl | rfl | rfl | rfl | rfl | rfl | rfl <;> decide +kernel
+  refine ⟨h7, rfl, ?_⟩
+  refine ⟨by decide, ⟨sampleTap_ok, by decide +kernel⟩, by decide, ⟨hk 4 (by decide), by decide +kernel⟩,
+    ⟨hk 5 (by decide), by decide +kernel⟩⟩
+
+example : DescDisplay.fromTree realDCodec (DescDisplay.toTree realDCodec sampleTr) = .ok sampleTr :=
+  desc_fromTree_toTree _ _ sampleTr_ok
 
 /-! ## numeric arguments -/
 
